@@ -19,4 +19,11 @@ McInit == [bal   |-> [a \in McAcc |-> CASE a = "a1" -> 409000 [] a = "a2" -> 186
            sup   |-> 200, frz |-> FALSE]
 McGas == [xfer |-> 21000, vote |-> 35000, reg |-> 112000, topup |-> 112000, unreg |-> 112000, issue |-> 63000,
           repl |-> 70000, axfer |-> 39000, freeze |-> 43000, unfreeze |-> 43000, box |-> 40000]
+\* amount classes of the asset transactions (cfg files cannot hold negative numbers): negative, zero, one, all of
+\* the holder's equity, one more than it owns, 2^256 (the adapter writes 2000000000 as 2^256)
+McAAmtQ == {-60, 0, 1, 100, 101, 2000000000}
+McAAmtT == {-60, 0, 100, 101}
+McAAmtS == {-60, -1, 0, 1, 40, 100, 101, 2000000000}
+McIAmt  == {-5, 0, 50}
+McIAmtS == {-5, 0, 1, 50}
 ====
